@@ -39,10 +39,13 @@ class BlockDiagonalOperator(EndomorphicOperator):
         self._ops = tuple(operators[key] if key in operators else None for key in domain.keys())
         self._capability = self._all_ops
 
-        self._dtype = {kk: oo.sampling_dtype for kk, oo in operators.items()}
+        # Not every LinearOperator (sums, chains, adapters) has a sampling dtype
+        self._dtype = {kk: getattr(oo, "sampling_dtype", None) for kk, oo in operators.items()}
         if all(vv is None for vv in self._dtype.values()):
             self._dtype = None
-        check_dtype_or_none(self._dtype, self._domain)
+        else:
+            for vv in self._dtype.values():
+                check_dtype_or_none(vv)
 
         for op in self._ops:
             if op is not None:
